@@ -617,4 +617,57 @@ Section Prims.
                  end
         end
     end.
+
+  (* ---------------------------------------------------------------- *)
+  (* The reusable interpreter: interp.New once, then Interpreter.Execute several times.
+     The only native-function state that survives between calls is p.nativeFuncs:
+     [None] = nil, [Some tbl] = the table.  interp.go setExecuteConfig:
+         if p.nativeFuncs == nil { err := p.initNativeFuncs(config.Funcs); if err != nil { return err } }
+     and initNativeFuncs assigns p.nativeFuncs only after every entry has passed checkNativeFunc
+     (an empty map gives make([]nativeFunc, 0): non-nil, the empty table). *)
+  Definition istate : Type := option (list nfunc).
+
+  (* the rest of one Execute once set-up has succeeded: the program's call name(args) *)
+  Definition call_outcome (funcs_r : list (bytes * fval)) (awk_defined : list bytes)
+                          (name : bytes) (args : list value) (tbl : list nfunc) : outcome :=
+    if mem_bytes name awk_defined then OAwkFunc
+    else match call_native tbl (resolver_index funcs_r name) args with
+         | NPanic k => OPanic k
+         | NOk (CValue v recv) => OValue v recv
+         | NOk (CError id recv) => ORunError id recv
+         end.
+
+  (* one Execute(config) with config.Funcs = funcs_i (in the iteration order of this call) *)
+  Definition exec_one (funcs_r : list (bytes * fval)) (awk_defined : list bytes)
+                      (name : bytes) (args : list value)
+                      (st : istate) (funcs_i : list (bytes * fval)) : istate * outcome :=
+    match st with
+    | Some tbl => (st, call_outcome funcs_r awk_defined name args tbl)   (* guard false: Funcs not looked at *)
+    | None =>
+        match init_native_funcs funcs_i with
+        | NPanic k => (None, OPanic k)
+        | NOk (inl (n, e)) => (None, OSetupError n e)                   (* nothing was assigned *)
+        | NOk (inr tbl) => (Some tbl, call_outcome funcs_r awk_defined name args tbl)
+        end
+    end.
+
+  Fixpoint exec_history (funcs_r : list (bytes * fval)) (awk_defined : list bytes)
+                        (name : bytes) (args : list value)
+                        (st : istate) (maps : list (list (bytes * fval))) : list outcome :=
+    match maps with
+    | [] => []
+    | m :: rest =>
+        let '(st', o) := exec_one funcs_r awk_defined name args st m in
+        o :: exec_history funcs_r awk_defined name args st' rest
+    end.
+
+  (* ParseProgram with funcs_r, New, then one Execute per element of [maps] *)
+  Definition run_history (funcs_r : list (bytes * fval)) (awk_defined : list bytes)
+                         (name : bytes) (args : list value)
+                         (maps : list (list (bytes * fval))) : outcome + list outcome :=
+    match resolve_call funcs_r awk_defined name (zlen args) with
+    | NPanic k => inl (OPanic k)
+    | NOk (Some e) => inl (OParseError e)
+    | NOk None => inr (exec_history funcs_r awk_defined name args None maps)
+    end.
 End Prims.
